@@ -120,6 +120,10 @@ fn plan_form(p: &mut Planner, tag: u8, len: usize, is_last: bool) -> Value {
             options.push(json!({"k":"oldi"}));
         }
     }
+    if data && len >= 512 && len.is_power_of_two() && len <= (1 << 30) && p.chance(1, 2) {
+        // the first chunk carries the whole body, the final fixed part is empty
+        return json!({"k":"partial","exps": [len.trailing_zeros() as u8], "last": if p.chance(1,5) { "new5" } else { "new" }});
+    }
     if data && len >= 512 && p.chance(2, 3) {
         // partial sequence: first 2^9.., later 2^0..2^16, possibly many tiny chunks, final part fixed
         let mut exps = Vec::new();
@@ -238,7 +242,8 @@ fn gen_reframe(ctx: &GenCtx) -> Vec<Value> {
                 }
                 _ => {
                     let cfg = msg_cfg(&mut p);
-                    let len = if p.chance(1, 6) { p.range(0, 70_000) } else { p.range(0, 6000) };
+                    // (literal body = 7 header octets + payload: some bodies are exact powers of two)
+                    let len = if p.chance(1, 6) { p.range(0, 70_000) } else if p.chance(1, 5) { (1usize << p.range(9, 16)) - 7 } else { p.range(0, 6000) };
                     json!({"artifact":"msg","cfg": cfg, "payload": {"gen":"lowent","len": len, "key": p.u64()}})
                 }
             };
@@ -267,6 +272,61 @@ fn read_msg(stream: Arc<Vec<u8>>, sk: &Option<PlainSessionKey>, verifiers: &[&'s
     };
     let spec = ReadSpec { armor: false, opener, consumer, verifiers: verifiers.to_vec(), max, streaming_v1: false, v1_limit: None, opts: 0 };
     guard(|| workload::read_message(input, &spec))
+}
+
+/// read-then-write: packets parsed from a legal framing and written again with their headers
+/// (`to_writer_with_header`) form a legal stream of the same packets (independent deframer)
+fn write_back(reframed: &[u8], site: &str, plan: &Value, rec: &mut Rec) {
+    use pgp::ser::Serialize;
+    let input = reframed.to_vec();
+    let r = guard(move || {
+        let mut pkts = Vec::new();
+        for item in PacketParser::new(std::io::Cursor::new(input)).take(10_000) {
+            match item {
+                Ok(p) => pkts.push(p),
+                Err(_) => return None,
+            }
+        }
+        let mut out = Vec::new();
+        let mut each = Vec::new();
+        for p in &pkts {
+            let before = out.len();
+            if p.to_writer(&mut out).is_err() {
+                return None;
+            }
+            each.push((packet_body(p), out.len() - before));
+        }
+        Some((out, each))
+    });
+    let (out, each) = match r {
+        Err(p) => {
+            rec.violation("panic", &norm_loc(&p.loc), format!("parse + write-back of a legally framed stream panicked: {}", p.msg), plan.clone());
+            return;
+        }
+        Ok(None) => {
+            rec.count("write-back:skipped-unparsed");
+            return;
+        }
+        Ok(Some(x)) => x,
+    };
+    rec.count("write-back:checked");
+    let fail = |rec: &mut Rec, d: String| rec.violation("written-stream-illegal", &format!("{site} [write-back]"), d, plan.clone());
+    match deframe(&out) {
+        Err(e) => fail(rec, format!("packets parsed from a legal framing and written back do not form a legal stream: {e}")),
+        Ok(pk) => {
+            if pk.len() != each.len() {
+                return fail(rec, format!("{} packets written back, the stream splits into {}", each.len(), pk.len()));
+            }
+            for (i, (q, ((tag, body), written))) in pk.iter().zip(each.iter()).enumerate() {
+                if q.tag != *tag || q.body != *body || q.end - q.start != *written {
+                    return fail(
+                        rec,
+                        format!("written-back packet #{i}: tag {} body {} octets in {} octets written; the stream has tag {} body {} octets in {} octets", tag, body.len(), written, q.tag, q.body.len(), q.end - q.start),
+                    );
+                }
+            }
+        }
+    }
 }
 
 fn run_reframe(plan: &Value, rec: &mut Rec) {
@@ -305,6 +365,7 @@ fn run_reframe(plan: &Value, rec: &mut Rec) {
         return;
     }
     let site = format!("reframe:{what}");
+    write_back(&reframed, &site, plan, rec);
     if what == "msg" {
         let verifiers = workload::verifier_names(&plan["cfg"]);
         let max = payload.len() + 1024;
